@@ -100,6 +100,8 @@ def render_pmodule(root: Path, tasks: list[dict], version: int) -> str:
             decos.append("@pytask.mark.persist")
         if t.get("is_gen"):
             decos.append("@task(is_generator=True)")
+        elif t.get("after_expr"):
+            decos.append(f"@task(after={t['after_expr']!r})")
         args = []
         pat_args = []
         def _rd(p):
